@@ -71,7 +71,7 @@ def run_family(fam, prop, tier, seed, d=None, replay_ops=None):
         args += fam["exec_args"](tier, seed)
     summ = vlib.vexec(binary, args, timeout=fam.get("exec_timeout", 3000), env={"GORACE": "exitcode=0"} if race else None)
     res.summary = summ
-    res.samples = summ.get("samples", [])[:6]
+    res.samples = [x[:400] for x in summ.get("samples", [])[:6]]
     if race and "DATA RACE" in summ.get("_stderr", ""):
         res.extra["race_report"] = summ["_stderr"][-3000:]
     # 4. trace validation by TLC
@@ -628,8 +628,9 @@ WMPT = dict(
     rule="histories = (a) behaviours of WMPT.tla (update/delete/commit at levels 0,1,3/gc/reload/readroot/owners/saveroot/"
          "rollback) emitted by TLC: -simulate samples, every behaviour of depth 4 over 2 keys x 3 values, and every behaviour of depth 7 "
          "(thorough: 8) of the storage protocol alone (update/delete/commit/gc/saveroot/rollback, SpecGC) over one key; (b) seeded random "
-         "histories in generator modes plain/shared/dirty/again/all and checkpoint-commit-rollback scenarios; all rotated over three key "
-         "universes (prefix universe, 4-nibble 0/1 window at the head / tail of the key); one trace event per storage write element; reopen from (root, weight) after every commit, gc "
+         "histories in generator modes plain/shared/dirty/again/all and checkpoint-commit-rollback scenarios; all rotated over the key "
+         "universes (prefix universe, 4-nibble 0/1 window at the head / tail of the key, sixteen-way fan-out at the root / one level down / at the end of the key), weights scaled per trace"
+         "; one trace event per storage write element; reopen from (root, weight) after every commit, gc "
          "and rollback; distinct_nontrivial = distinct operation-kind signatures of whole histories",
     summary_keys=["commits", "gcs", "owner_observations", "rollbacks", "copyroot_forks", "distinct_nodes", "generator_modes", "go_histories", "panics"],
     ops_of=_wmpt_ops,
